@@ -12,6 +12,10 @@ THEOREMS = [
     'C06_order_euler', 'C06_order_cn_rk2', 'C06_order_cn_rk3', 'C06_order_cn_rk4', 'C06_order_sil3',
     'C06_order_decider_sound', 'C06_rk4_near_carpenter_kennedy',
     'C06_linear_taylor_series', 'C06_leapfrog_second_order_series',
+    'C06_series_exact_flow_is_taylor', 'C06_series_ginv_is_inverse',
+    'C06_nonlinear_order_euler', 'C06_nonlinear_order_cn_rk2', 'C06_nonlinear_order_cn_rk3',
+    'C06_nonlinear_order_cn_rk4', 'C06_nonlinear_order_sil3', 'C06_nonlinear_order_leapfrog',
+    'C06_nonlinear_hyps_satisfiable', 'C06_nonlinear_order_reals',
     'C06_imex_is_ark', 'C06_lowstorage_is_ark', 'C06_direct_schemes_are_ark',
     'C06_imex_reduces_to_explicit', 'C06_imex_reduces_to_implicit',
     'C06_reduces_to_explicit', 'C06_reduces_to_implicit',
@@ -24,7 +28,11 @@ LEVEL = 'proof'
 LEVEL_TEXT = ('machine-checked theorems (Coq) on the coefficients regenerated from time_integration.py each run: '
               'additive-RK order conditions (exact, or |residual| <= 1e-13 for the 13-digit decimals) up to the design '
               'order and failure of the next order; bivariate Taylor coefficients of the linear one-step multiplier '
-              '(formal power series); every step function is an additive RK step in Butcher form, for every field, '
+              '(formal power series); ORDER FOR NONLINEAR F: the step functions run at the carrier "power series in h" '
+              'reproduce the Taylor series of the exact flow of u\' = F(u) + g u with symbolic u0, g, F^(j)(u0)/j! over every '
+              'field of characteristic 0 up to the design order and not beyond (Euler 1; CN-RK2 2; RK3/RK4/SIL3 2 for every g '
+              'and 3 / 4 (defect coefficients <= 1e-13) / 3-for-linear-F when g = 0; leapfrog 2), the comparison series solves '
+              'the ODE, the geometric series inverts 1 - eta g; every step function is an additive RK step in Butcher form, for every field, '
               'module, nonlinear F and G: imex_runge_kutta interpreter (zero skipping, lazy stages) for every tableau, '
               'low-storage 2N+CN scheme = ark_step(lowstorage_to_butcher) for every coefficient list, Euler pair and CN-RK2 '
               'on their tableaux; reduction to the explicit RK / DIRK / CN-chain / backward-Euler scheme (all six schemes); '
@@ -33,8 +41,14 @@ LEVEL_TEXT = ('machine-checked theorems (Coq) on the coefficients regenerated fr
               'generated a_im/b_im, polynomial certificate), leapfrog alpha >= 1/2; '
               'length validation accepts exactly the consistent shapes; model executed against the implementation')
 LEVEL_NOTE = ('theorems are about Model/Integrators.v with the coefficients of Gen/Tableaux.v (translated from the source '
-              'each run); "order conditions => order for every smooth F" (Butcher / Kennedy-Carpenter) is cited, not '
-              'formalised (nonlinear order is additionally measured on the implementation by step halving); the evaluation '
+              'each run); the nonlinear-order theorems are for the SCALAR autonomous problem with symbolic Taylor '
+              'coefficients, which separates every order condition of the orders claimed (distinct monomials for the '
+              'additive conditions of order <= 2 and, with G = 0, for the trees of order <= 3; at order 4 two trees share a '
+              'monomial and the four order-4 conditions are decided separately in C06_order_cn_rk4); that the same conditions '
+              'suffice for SYSTEMS (vector-valued elementary differentials; order >= 5 never needed) is cited (Butcher / '
+              'Kennedy-Carpenter), not formalised; series truncated after h^4; RK4 statements up to defect polynomials with '
+              'coefficients <= 1e-13 (13-digit decimal table); nonlinear order is additionally measured on the '
+              'implementation against the model series; the evaluation '
               'homomorphism from formal power series to scalars behind linear_taylor is cited; G_inv enters the '
               'Butcher-form theorems through the hypothesis that y = G_inv(x, eta) solves y = x + eta G(y)')
 TECHNIQUE = ('Coq theorems over an executable Gallina model with source-regenerated tableaux + differential '
@@ -192,6 +206,17 @@ def generate(ctx):
             yield 'ls_vs_ark', {'scheme': scheme, 'd': d, 'A': A, 'B': B, 'p': p, 'u': u,
                                 'dt': float(rng.choice([2.0 ** -7, 0.25, 1.0]))}
     yield from generate_review(ctx)
+    # nonlinear order via the power-series model (scalar u' = F(u) + g u, F a quartic with dyadic Taylor coefficients)
+    for r in range(1 if quick else 6):
+        for scheme in range(6):
+            for mode in ('general', 'G=0', 'G=0,linearF'):
+                if scheme in (0, 1, 2) and mode != 'general': continue
+                if scheme in (3, 4) and mode == 'G=0,linearF': continue
+                c = (rng.integers(-8, 9, size=5).astype(np.float64) / 8)
+                if abs(c[0]) < 0.25: c[0] = 0.5
+                if abs(c[2]) < 0.25: c[2] = -0.75
+                yield 'nonlinear_order', {'scheme': scheme, 'mode': mode, 'c': c.tolist(),
+                                          'u0': float(rng.integers(-8, 9)) / 8, 'g': -float(rng.integers(1, 9)) / 8}
 
 
 def skew_problem(rng, d, nonlinear=True):
@@ -801,7 +826,80 @@ def r_direct_vs_tableau(ctx, a):
     ctx.oracle_close('%s = imex_runge_kutta on its published Butcher tableau' % name, o1, o2, scale=max(b1.scale(), b2.scale()))
 
 
-RUNNERS = {'forms': r_forms, 'purity': r_purity, 'jit': r_jit, 'direct_vs_tableau': r_direct_vs_tableau,
+SERIES_ORDER = {(0, 'general'): 1, (1, 'general'): 2, (2, 'general'): 2, (3, 'general'): 2, (3, 'G=0'): 3,
+                (4, 'general'): 2, (4, 'G=0'): 4, (5, 'general'): 2, (5, 'G=0'): 2, (5, 'G=0,linearF'): 3}
+
+
+def r_nonlinear_order(ctx, a):
+    """Ties the power-series model of the nonlinear-order theorems to the code: scalar
+    u' = F(u) + g u, F(u) = sum_j c_j (u - u0)^j (so that c_j = F^(j)(u0)/j! exactly; F is a
+    quartic, hence the series model is exact to every order and is run to h^9 - RK4: h^5 - here).
+    S = series of one step (model, exact rationals), E = series of the exact flow.
+    (a) theorem instance on the model: S_j = E_j for j <= design order p;
+    (b) implementation(h) = S(h) up to the tail of the series (geometric bound from the computed
+        coefficients), at steps h = 2^-k from about 1/8 down to 2^-12;
+    (c) the property itself on the implementation: |implementation(h) - E(h)| <= C h^(p+1) with the
+        constant C predicted by the model, for all those h."""
+    ti = TI(); sc, mode = a['scheme'], a['mode']
+    p = SERIES_ORDER[(sc, mode)]
+    NS = 6 if sc == 4 else 10      # exact rationals with the 13-digit RK4 decimals are expensive
+    c = [Fraction(x) for x in a['c']]; u0 = Fraction(a['u0']); g = Fraction(a['g'])
+    if mode != 'general': g = Fraction(0)
+    if mode == 'G=0,linearF': c = c[:2] + [Fraction(0)] * 3
+    alpha = ctx.model.call(4, [1], [])[0]
+    pad = lambda l: (list(l) + [Fraction(0)] * NS)[:NS]
+    S = pad(ctx.model.call(5, [sc, NS], [[u0, g, alpha], c]))
+    E = pad(ctx.model.call(5, [6, NS], [[u0, g, alpha], c]))
+    if sc != 4:
+        S5 = pad(ctx.model.call(5, [sc, 0], [[u0, g, alpha], c]))[:5]
+        ctx.exact('series model: truncation after h^4 (theorems) = first coefficients of the longer series',
+                  [str(x) for x in S5], [str(x) for x in S[:5]])
+    tol = Fraction(1, 10 ** 12) if sc == 4 else Fraction(0)
+    ctx.exact('series model: step = exact flow up to h^%d (%s, %s)' % (p, SCHEMES[sc], mode),
+              [int(abs(S[j] - E[j]) <= tol) for j in range(p + 1)], [1] * (p + 1))
+    ctx.count('nonlinear_order:%s:%s' % (SCHEMES[sc], mode))
+    cf = [float(x) for x in c]; u0f = float(u0); gf = float(g)
+    def Fx(u):
+        d = np.asarray(u, dtype=np.float64) - u0f
+        return cf[0] + d * (cf[1] + d * (cf[2] + d * (cf[3] + d * cf[4])))
+    eq = ti.ImplicitExplicitODE.from_functions(Fx, lambda u: gf * np.asarray(u, dtype=np.float64),
+                                               lambda x, eta: np.asarray(x, dtype=np.float64) / (1.0 - eta * gf))
+    ev = lambda ser, h: sum(ser[j] * h ** j for j in range(NS))
+    def impl(h):
+        hf = float(h)
+        if sc == 1:
+            prev = float(ev(E, -h))
+            return float(np.asarray(ti.semi_implicit_leapfrog(eq, hf)((np.asarray([prev]), np.asarray([u0f])))[1])[0])
+        f = [ti.backward_forward_euler, None, ti.crank_nicolson_rk2, ti.crank_nicolson_rk3, ti.crank_nicolson_rk4, ti.imex_rk_sil3][sc]
+        return float(np.asarray(f(eq, hf)(np.asarray([u0f])))[0])
+    # growth rate of the coefficients -> geometric bound of the neglected tails  sum_{j >= NS} (rho h)^j
+    rho = 1.5 * max([1.0] + [abs(float(x)) ** (1.0 / j) for ser in (S, E) for j, x in enumerate(ser) if j >= 3])
+    k0 = 3
+    while rho * 2.0 ** -k0 > 0.25: k0 += 1
+    ks = list(range(k0, k0 + 5)) + [10, 12]
+    hs = [Fraction(1, 2 ** k) for k in ks]
+    out = [impl(h) for h in hs]
+    floor = 4e-13
+    tail = [4 * (rho * float(h)) ** NS for h in hs]
+    R = [abs(out[i] - float(ev(S, h))) for i, h in enumerate(hs)]
+    i = int(np.argmax([R[i] - tail[i] for i in range(len(hs))]))
+    ctx.oracle('implementation step = its power-series model up to the tail of the series (%s, %s)' % (SCHEMES[sc], mode),
+               bool(R[i] <= tail[i] + floor),
+               {'h': '2^-%d' % ks[i], 'difference': R[i], 'tail_bound': tail[i], 'rho': rho, 'args': a})
+    for k in (10, 12):
+        h = Fraction(1, 2 ** k)
+        ctx.corr('one step of %s at h = 2^-%d vs power-series model' % (SCHEMES[sc], k), [out[ks.index(k)]], [ev(S, h)], scale=4.0)
+    # (c) local error bound C h^(p+1), C from the model
+    h0 = float(hs[0])
+    C = 1.5 * sum(abs(float(S[j] - E[j])) * h0 ** (j - p - 1) for j in range(p + 1, NS)) + 8 * rho ** NS * h0 ** (NS - p - 1)
+    D = [abs(out[i] - float(ev(E, h))) for i, h in enumerate(hs)]
+    i = int(np.argmax([D[i] - C * float(hs[i]) ** (p + 1) for i in range(len(hs))]))
+    ctx.oracle('one step reproduces the Taylor expansion of the exact flow up to h^%d: local error <= C h^%d (%s, %s)'
+               % (p, p + 1, SCHEMES[sc], mode), bool(D[i] <= C * float(hs[i]) ** (p + 1) + floor),
+               {'h': '2^-%d' % ks[i], 'local_error': D[i], 'C': C, 'bound': C * float(hs[i]) ** (p + 1), 'args': a})
+
+
+RUNNERS = {'nonlinear_order': r_nonlinear_order, 'forms': r_forms, 'purity': r_purity, 'jit': r_jit, 'direct_vs_tableau': r_direct_vs_tableau,
            'translator': r_translator, 'step': r_step, 'ls_generic': r_ls_generic, 'imex_generic': r_imex_generic,
            'ls_lengths': r_ls_lengths, 'tableau_shape': r_tableau_shape, 'stability': r_stability,
            'order': r_order, 'reduction': r_reduction, 'ls_vs_ark': r_ls_vs_ark}
